@@ -2,6 +2,7 @@
 package rules
 
 import (
+	"go/types"
 	"golang.org/x/tools/go/ssa"
 
 	"verifchk/internal/core"
@@ -15,6 +16,9 @@ type Ctx struct {
 	Tier string
 
 	lookupPath map[*ssa.Function]bool
+	drainMemo  map[*ssa.Function][]int
+	accBind    map[*ssa.Parameter]ssa.Value
+	mutTypes   map[*types.Named]bool
 }
 
 // RuleFunc runs all rules of one property.
